@@ -339,21 +339,19 @@ def _r6(ctx):
     # _create_species returns None for pseudo-elements
     fn = pkg.method("Component", "_create_species")
     ctx.saw("naunet/component.py", "Component._create_species")
-    guard = None
-    for n in ast.walk(fn):
-        if isinstance(n, ast.If):
-            t = ast.unparse(n.test)
-            if "known_pseudoelements" in t and "not in" in t:
-                guard = n
-    ok = False
-    if guard is not None:
-        gb = list(ast.walk(ast.Module(body=guard.body, type_ignores=[])))
-        inside = any(isinstance(c, ast.Call) and ast.unparse(c.func) == "Species" for c in gb)
-        outside = [c for c in ast.walk(fn) if isinstance(c, ast.Call) and ast.unparse(c.func) == "Species"
-                   and not any(c is d for d in gb)]
-        last = fn.body[-1]
-        ret_none = isinstance(last, ast.Return) and (last.value is None or (isinstance(last.value, ast.Constant) and last.value.value is None))
-        ok = inside and not outside and ret_none
+    # by paths (any arrangement of the conditions): every path that constructs Species(name) has `name in known_pseudoelements()`
+    # false, and on the paths where it is true the function returns None
+    from ..valueflow import guards_satisfiable
+    cfl = Flow(fn, "naunet/component.py")
+    arg = ("param", fn.args.args[1].arg) if len(fn.args.args) > 1 else None
+    PSE = ("cmp", ("In",), (arg, ("meth", ("global", "Species"), "known_pseudoelements", (), ())))
+    rets = [(simp(f.value), f.guards) for f in cfl.facts if f.kind == "return"]
+    makes = [(v, g) for v, g in rets if v[0] == "call" and v[1] == ("global", "Species")]
+    ok = bool(makes) and all(v[2] and v[2][0] == arg for v, g in makes) and all(not guards_satisfiable(g, [(PSE, True)]) for v, g in makes)
+    # on a pseudo-element path (name is a non-empty str in the list) only None can be returned
+    for v, g in rets:
+        if guards_satisfiable(g, [(PSE, True), (arg, True), (("call", ("global", "isinstance"), (arg, ("global", "Species")), ()), False)]) and v != ("const", None):
+            ok = False
     ctx.check(ok, "R6", "Component._create_species:pseudo-filter", ("naunet/component.py", fn.lineno),
               "Species(..) is constructed only for names not in Species.known_pseudoelements(); otherwise None is returned")
     # the list consulted is the CONFIGURED pseudo-element list whenever any list was configured
